@@ -172,17 +172,21 @@ Fixpoint tree_size (t : tree) : nat :=
                     match l with [] => O | (_, c) :: r => (tree_size c + go r)%nat end) ch)
   end.
 
-(* every entry strictly below a directory, with its path relative to `pre` (preorder) *)
-Fixpoint entries (pre : list name) (t : tree) : list (list name * bool) :=
+(* every node strictly below a directory, with its path (prefixed by `pre`), in preorder *)
+Fixpoint nodes (pre : list name) (t : tree) : list (list name * tree) :=
   match t with
   | File _ => []
   | Dir ch =>
-      (fix go (l : list (name * tree)) : list (list name * bool) :=
+      (fix go (l : list (name * tree)) : list (list name * tree) :=
          match l with
          | [] => []
-         | (n, c) :: r => (pre ++ [n], is_dir c) :: entries (pre ++ [n]) c ++ go r
+         | (n, c) :: r => (pre ++ [n], c) :: nodes (pre ++ [n]) c ++ go r
          end) ch
   end.
+
+(* what a recursive listing must return: every entry once, with its path and type *)
+Definition entries (pre : list name) (t : tree) : list (list name * bool) :=
+  map (fun pt => (fst pt, is_dir (snd pt))) (nodes pre t).
 
 (* ------------------------------------------------------------------ *)
 (* results                                                             *)
